@@ -4,7 +4,9 @@ import (
 	"context"
 	"errors"
 	"fmt"
+	"io"
 	"math"
+	"net/http"
 	"reflect"
 	"sort"
 	"strconv"
@@ -742,8 +744,44 @@ var c20LimiterModes = []string{"absent", "present", "failing"}
 
 type c20Resp struct {
 	Status int    `json:"status"`
-	Size   int    `json:"size"` // elements in the body (status 200) / in the decoy body
-	Body   string `json:"body"` // xml | text | none | truncated
+	Size   int    `json:"size"`           // elements in the body (status 200) / in the decoy body
+	Body   string `json:"body"`           // xml | text | none | truncated | short-body | chunked-cut
+	Meta   string `json:"meta,omitempty"` // response metadata set (c20Metas); "" = rotating
+}
+
+// c20Meta is a set of response metadata other than the status code. None of it may influence
+// what a call returns: the statement maps *statuses* to errors and 200 to the elements.
+type c20Meta struct {
+	name    string
+	m       srv.Meta
+	errOnly bool // only sent with non-200 statuses (what the real servers do)
+}
+
+// The OSM API (rails port's report_error, cgimap) explains failures in an "Error" response
+// header next to a text/plain body; rate limiting answers carry Retry-After.
+var c20Metas = []c20Meta{
+	{name: "plain"},
+	{name: "error-header", errOnly: true, m: srv.Meta{Header: http.Header{"Error": {"The object with the given id has already been deleted"}}}},
+	{name: "error+retry", errOnly: true, m: srv.Meta{Header: http.Header{"Error": {"You have downloaded too much data. Please try again in 42 seconds."}, "Retry-After": {"42"}, "Cache-Control": {"no-cache"}}}},
+	{name: "retry-after-date", errOnly: true, m: srv.Meta{Header: http.Header{"Retry-After": {"Wed, 21 Oct 2026 07:28:00 GMT"}}}},
+	{name: "chunked+error", errOnly: true, m: srv.Meta{Chunked: true, Header: http.Header{"Error": {"bbox too large"}}}},
+	{name: "nobody+error", errOnly: true, m: srv.Meta{NoBody: true, Header: http.Header{"Error": {"You requested too many nodes (limit is 50000)"}}}},
+	{name: "noise", m: srv.Meta{Header: http.Header{"X-Request-Id": {"b7c3f0e2-1"}, "Vary": {"Accept-Encoding"}, "Server": {"Apache/2.4.54 (Ubuntu)"},
+		"Content-Language": {"en"}, "Strict-Transport-Security": {"max-age=31536000"}, "Etag": {`W/"5f2c"`}, "Cache-Control": {"private, max-age=0, must-revalidate"}}}},
+	{name: "chunked", m: srv.Meta{Chunked: true}},
+}
+
+func c20MetaFor(name string, n, status int) c20Meta {
+	m := c20Metas[n%len(c20Metas)]
+	for _, x := range c20Metas {
+		if x.name == name {
+			m = x
+		}
+	}
+	if m.errOnly && status == 200 {
+		return c20Metas[0]
+	}
+	return m
 }
 
 var c20Statuses = []int{200, 204, 400, 403, 404, 409, 410, 414, 429, 500, 503}
@@ -751,16 +789,16 @@ var c20Statuses = []int{200, 204, 400, 403, 404, 409, 410, 414, 429, 500, 503}
 func c20Responses() []c20Resp {
 	var out []c20Resp
 	for _, n := range []int{0, 1, 2, 5} {
-		out = append(out, c20Resp{200, n, "xml"})
+		out = append(out, c20Resp{Status: 200, Size: n, Body: "xml"})
 	}
 	for _, st := range c20Statuses[1:] {
 		if st == 204 {
-			out = append(out, c20Resp{st, 0, "none"})
+			out = append(out, c20Resp{Status: st, Size: 0, Body: "none"})
 			continue
 		}
-		out = append(out, c20Resp{st, 1, "xml"}, c20Resp{st, 0, "text"})
+		out = append(out, c20Resp{Status: st, Size: 1, Body: "xml"}, c20Resp{Status: st, Size: 0, Body: "text"})
 	}
-	out = append(out, c20Resp{200, 3, "truncated"})
+	out = append(out, c20Resp{Status: 200, Size: 3, Body: "truncated"})
 	return out
 }
 
@@ -936,7 +974,135 @@ type c20Obs struct {
 	ErrTypes []string         `json:"error_types"`
 	Doc      string           `json:"document_head"`
 	Fault    string           `json:"transport_fault,omitempty"`
+	Meta     string           `json:"response_metadata,omitempty"`
 	Trips    []int64          `json:"roundtrip_seqs,omitempty"`
+}
+
+// c20BigKinds: the endpoints that get big answers and the document kind each is answered with.
+var c20BigKinds = map[string]string{"nodes": "nodes", "node-history": "nodes", "map": "map", "changeset-download": "change"}
+
+// bigCall: one call answered 200 with a well-formed document of at least the given size,
+// streamed by the server from element templates (apixml.Big). The oracle regenerates element i
+// from i; no model of the whole answer is kept.
+func (e *c20Env) bigCall(ep *c20EP, a c20Args, o c20Opts, limMode string, bytes int64) {
+	res := e.res
+	e.n++
+	a = e.materialise(ep, a)
+	key := func(class string) string { return "C20/" + ep.name + "/big-answer/" + class }
+	big, size := apixml.BigOfSize(c20BigKinds[ep.name], bytes)
+	e.api.RespondStream(200, "application/xml; charset=utf-8", func(w io.Writer) error { _, err := big.Write(w); return err })
+	e.lim.Err = nil
+	e.ds.Limiter = nil
+	if limMode == "present" {
+		e.ds.Limiter = e.lim
+	}
+	e.api.Take()
+	e.lim.Take()
+	e.ft.Arm("")
+	e.ft.Take()
+
+	got, err := c20Invoke(ep.name, e.ds, e.pkg, context.Background(), a, o)
+
+	reqs, waits := e.api.Take(), e.lim.Take()
+	e.ft.Take()
+	res.Event(int64(len(reqs) + len(waits)))
+	res.Add("calls", 1)
+	res.Add("calls_big_answer", 1)
+	res.Add("requests_seen", int64(len(reqs)))
+	res.Add("limiter_waits_seen", int64(len(waits)))
+	res.SetMax("answer_bytes", size)
+	res.SetMax("answer_elements", int64(big.Nodes+big.Ways()))
+	res.Put("endpoints", ep.name)
+	obs := c20Obs{Endpoint: ep.name, Base: e.base.name, Via: e.via, Args: a, Opts: o, Limiter: limMode, Resp: c20Resp{Status: 200, Size: big.Nodes + big.Ways(), Body: "xml"},
+		Requests: reqs, Waits: waits, Doc: fmt.Sprintf("streamed %s document: %d nodes, %d ways, %d bytes", big.Kind, big.Nodes, big.Ways(), size)}
+	if err != nil {
+		obs.Err, obs.ErrTypes = err.Error(), c20ErrTypes(err)
+	}
+	res.Sample = obs
+	viol := func(k, format string, args ...any) { res.Violate(k, fmt.Sprintf(format, args...), obs) }
+	res.Eval(fmt.Sprintf("%s|%s|%s|%s|big:%dMiB", ep.name, e.base.name, e.via, limMode, size>>20))
+
+	if len(reqs) != 1 {
+		viol(key("request-count"), "server saw %d requests for one call, want exactly 1", len(reqs))
+	}
+	if limMode == "present" && (len(waits) == 0 || (len(reqs) > 0 && waits[0] > reqs[0].Seq)) {
+		viol(key("limiter"), "limiter set but no Wait before the request (waits %v)", waits)
+	}
+	if err != nil {
+		viol(key("error"), "status 200 with a well-formed document of %d bytes (%d nodes, %d ways), but error %v", size, big.Nodes, big.Ways(), err)
+		if !c20IsEmpty(got) {
+			viol(key("data-with-error"), "error together with data")
+		}
+		return
+	}
+	// returned elements == written elements
+	var nodes [3]osm.Nodes // "change": per action
+	var ways osm.Ways
+	rootWant, rootGot := "", ""
+	switch v := got.(type) {
+	case osm.Nodes:
+		nodes[0] = v
+	case *osm.OSM:
+		if v != nil {
+			nodes[0], ways = v.Nodes, v.Ways
+			cp := *v
+			cp.Nodes, cp.Ways = nil, nil
+			w := apixml.NewOSM()
+			if big.Kind == "map" {
+				w.Bounds = apixml.BigBounds()
+			}
+			rootWant, rootGot = eq.Dump(w), eq.Dump(&cp)
+		}
+	case *osm.Change:
+		if v != nil {
+			cp := *v
+			for k, p := range []**osm.OSM{&cp.Create, &cp.Modify, &cp.Delete} {
+				if *p != nil {
+					nodes[k] = (*p).Nodes
+					rest := **p
+					rest.Nodes = nil
+					if eq.Dump(&rest) == eq.Dump(&osm.OSM{}) {
+						*p = nil
+					}
+				}
+			}
+			rootWant, rootGot = eq.Dump(apixml.NewChange()), eq.Dump(&cp)
+		}
+	}
+	if rootWant != rootGot {
+		viol(key("element"), "everything but the node/way lists differs from what the server wrote: %s", eq.Diff(rootWant, rootGot))
+	}
+	if big.Kind == "change" {
+		for k := range nodes {
+			if want := (big.Nodes + 2 - k) / 3; len(nodes[k]) != want {
+				viol(key("count"), "%s: %d nodes returned, the server wrote %d", apixml.BigActions[k], len(nodes[k]), want)
+				return
+			}
+			for j, n := range nodes[k] {
+				if g, w := eq.Dump(n), eq.Dump(apixml.BigNode(3*j+k)); g != w {
+					viol(key("element"), "%s node %d differs from what the server wrote: %s", apixml.BigActions[k], j, eq.Diff(w, g))
+					return
+				}
+			}
+		}
+		return
+	}
+	if len(nodes[0]) != big.Nodes || len(ways) != big.Ways() {
+		viol(key("count"), "%d nodes and %d ways returned, the server wrote %d and %d", len(nodes[0]), len(ways), big.Nodes, big.Ways())
+		return
+	}
+	for i, n := range nodes[0] {
+		if g, w := eq.Dump(n), eq.Dump(apixml.BigNode(i)); g != w {
+			viol(key("element"), "node %d differs from what the server wrote: %s", i, eq.Diff(w, g))
+			return
+		}
+	}
+	for j, x := range ways {
+		if g, w := eq.Dump(x), eq.Dump(apixml.BigWay(j)); g != w {
+			viol(key("element"), "way %d differs from what the server wrote: %s", j, eq.Diff(w, g))
+			return
+		}
+	}
 }
 
 // c20Faults are the transport-level behaviours: client-side errors injected by the round
@@ -991,7 +1157,7 @@ func (e *c20Env) faultCall(ep *c20EP, a c20Args, o c20Opts, limMode, fault strin
 	res.SetMax("roundtrips_per_call", int64(len(trips)))
 	res.Put("endpoints", ep.name)
 	res.Put("transport_faults", fault)
-	obs := c20Obs{Endpoint: ep.name, Base: e.base.name, Via: e.via, Args: a, Opts: o, Limiter: limMode, Resp: c20Resp{200, 1, "xml"},
+	obs := c20Obs{Endpoint: ep.name, Base: e.base.name, Via: e.via, Args: a, Opts: o, Limiter: limMode, Resp: c20Resp{Status: 200, Size: 1, Body: "xml"},
 		Requests: reqs, Waits: waits, Doc: apixml.Describe(doc), Fault: fault, Trips: trips}
 	if len(obs.Args.IDs) > 8 {
 		obs.Args.IDs = obs.Args.IDs[:8]
@@ -1064,9 +1230,17 @@ func (e *c20Env) call(ep *c20EP, a c20Args, o c20Opts, limMode string, rs c20Res
 		ctype = ""
 	}
 	e.api.Respond(rs.Status, ctype, doc)
+	meta := c20MetaFor(rs.Meta, e.n, rs.Status)
 	if rs.Body == "short-body" || rs.Body == "chunked-cut" {
 		e.api.Hangup(rs.Body)
 		res.Add("calls_status_with_broken_body", 1)
+		meta = c20Metas[0]
+	} else {
+		e.api.Metadata(meta.m)
+		res.Put("response_metadata_sets", meta.name)
+		if meta.m.Header.Get("Error") != "" {
+			res.Add("calls_with_error_header", 1)
+		}
 	}
 
 	// the limiter
@@ -1098,7 +1272,7 @@ func (e *c20Env) call(ep *c20EP, a c20Args, o c20Opts, limMode string, rs c20Res
 	res.Put("endpoints", ep.name)
 	res.Put("statuses", strconv.Itoa(rs.Status))
 
-	obs := c20Obs{Endpoint: ep.name, Base: e.base.name, Via: e.via, Args: a, Opts: o, Limiter: limMode, Resp: rs, Requests: reqs, Waits: waits, Doc: apixml.Describe(doc)}
+	obs := c20Obs{Endpoint: ep.name, Base: e.base.name, Via: e.via, Args: a, Opts: o, Limiter: limMode, Resp: rs, Requests: reqs, Waits: waits, Doc: apixml.Describe(doc), Meta: meta.name}
 	if len(obs.Args.IDs) > 8 {
 		obs.Args.Label += fmt.Sprintf(" (%d ids, first 8 shown)", len(obs.Args.IDs))
 		obs.Args.IDs = obs.Args.IDs[:8]
@@ -1131,6 +1305,9 @@ func (e *c20Env) call(ep *c20EP, a c20Args, o c20Opts, limMode string, rs c20Res
 	sig := fmt.Sprintf("%s|%s|%s|%s|%s|%d/%s/%d", ep.name, o.Label, e.base.name, e.via, limMode, rs.Status, rs.Body, rs.Size)
 	if a.URLLen > 0 {
 		sig += "|" + a.Label
+	}
+	if rs.Meta != "" {
+		sig += "|meta:" + rs.Meta
 	}
 	res.Eval(sig)
 
@@ -1394,11 +1571,32 @@ func c20Exec(c fw.Case) *fw.Result {
 					if o.Invalid {
 						o = ep.opts[0]
 					}
-					env.call(ep, ep.args[k%len(ep.args)], o, c20LimiterModes[l], c20Resp{st, (m + l) % 2, mode})
+					env.call(ep, ep.args[k%len(ep.args)], o, c20LimiterModes[l], c20Resp{Status: st, Size: (m + l) % 2, Body: mode})
 					k++
 				}
 			}
 		}
+		// every non-200 status under every set of response metadata (Error header, Retry-After,
+		// chunked, no body, ...): only the status decides the error
+		for _, st := range c20Statuses {
+			if st == 200 {
+				continue
+			}
+			for _, m := range c20Metas {
+				o := ep.opts[k%len(ep.opts)]
+				if o.Invalid {
+					o = ep.opts[0]
+				}
+				body := []string{"text", "xml"}[k%2]
+				if st == 204 {
+					body = "none"
+				}
+				env.call(ep, ep.args[k%len(ep.args)], o, c20LimiterModes[k%2], c20Resp{Status: st, Size: k % 2, Body: body, Meta: m.name})
+				k++
+			}
+		}
+	case "big":
+		env.bigCall(ep, ep.args[0], ep.opts[0], c20LimiterModes[c.Int("lim")], c.Int("bytes"))
 	case "shapes":
 		// answer-shape repetition: many well-formed 200 answers of growing size, so that the
 		// PRNG-chosen document layouts (block order of a changeset download, element mix of
@@ -1406,7 +1604,7 @@ func c20Exec(c fw.Case) *fw.Result {
 		k := 0
 		for i := int64(0); i < c.Int("calls"); i++ {
 			for _, n := range []int{2, 3, 5, 9} {
-				env.call(ep, ep.args[k%len(ep.args)], ep.opts[0], c20LimiterModes[k%2], c20Resp{200, n, "xml"})
+				env.call(ep, ep.args[k%len(ep.args)], ep.opts[0], c20LimiterModes[k%2], c20Resp{Status: 200, Size: n, Body: "xml"})
 				k++
 			}
 		}
@@ -1425,6 +1623,17 @@ func c20Cases(tier string, seed uint64) []fw.Case {
 	var cs []fw.Case
 	mk := func(kind, ep, base, via string, i int, calls int64) fw.Case {
 		return fw.Case{Kind: kind, Seed: gen.Sub(seed, "c20/"+kind, i), S: map[string]string{"ep": ep, "base": base, "via": via}, P: map[string]int64{"calls": calls}}
+	}
+	bigs := func(sizes ...int64) {
+		k := 0
+		for _, name := range []string{"nodes", "map", "changeset-download", "node-history"} {
+			for _, b := range sizes {
+				c := mk("big", name, c20Bases[k%len(c20Bases)].name, c20Vias[k%len(c20Vias)], k, 0)
+				c.P["bytes"], c.P["lim"] = b, int64(k%2)
+				cs = append(cs, c)
+				k++
+			}
+		}
 	}
 	shapes := func(calls int64, reps int) {
 		k := 0
@@ -1447,6 +1656,7 @@ func c20Cases(tier string, seed uint64) []fw.Case {
 			}
 		}
 		shapes(100, 6)
+		bigs(8<<20-64<<10, 8<<20+64<<10, 16<<20+1, 40<<20)
 		return fw.Number(cs)
 	}
 	// quick: every endpoint x every status (and size) once, under rotating base / via ...
@@ -1469,6 +1679,12 @@ func c20Cases(tier string, seed uint64) []fw.Case {
 		cs = append(cs, mk("faults", ep.name, c20Bases[(i+2)%len(c20Bases)].name, c20Vias[(i+1)%len(c20Vias)], i, 0))
 	}
 	shapes(12, 1)
+	// ... a few big answers (one size per big-answer endpoint, staggered)
+	for i, name := range []string{"nodes", "map", "changeset-download"} {
+		c := mk("big", name, c20Bases[i%len(c20Bases)].name, c20Vias[i%len(c20Vias)], i, 0)
+		c.P["bytes"], c.P["lim"] = []int64{8<<20 + 64<<10, 12 << 20, 9 << 20}[i], int64(i%2)
+		cs = append(cs, c)
+	}
 	// ... plus a PRNG-chosen slice of the full product
 	r := gen.New(seed, "c20slices")
 	for i := 0; i < 60; i++ {
